@@ -522,6 +522,16 @@ class Extractor:
             elt = subst(Renamer(ren).visit(copy.deepcopy(it.elt)), binds)
             self._unify(target, elt, binds)
             return out, binds
+        Xp = _pairs_source(it)
+        if Xp is not None and isinstance(target, (ast.Tuple, ast.List)) and len(target.elts) == 2:
+            j = ast.Name(id=_fresh("pair"), ctx=ast.Store())
+            rng = ast.parse("range(len(X) - 1)", mode="eval").body
+            rng.args[0].left.args[0] = copy.deepcopy(Xp)
+            xa = ast.Subscript(value=copy.deepcopy(Xp), slice=ast.Name(id=j.id, ctx=ast.Load()), ctx=ast.Load())
+            xb = ast.Subscript(value=copy.deepcopy(Xp), slice=ast.BinOp(left=ast.Name(id=j.id, ctx=ast.Load()), op=ast.Add(), right=ast.Constant(1)), ctx=ast.Load())
+            self._unify(target.elts[0], xa, binds)
+            self._unify(target.elts[1], xb, binds)
+            return [Ctx("for", target=j, iter=rng)], binds
         if isinstance(it, ast.Call) and dotted(it.func) in ("itertools.product", "product") and not it.keywords and len(it.args) >= 1 and \
                 isinstance(target, (ast.Tuple, ast.List)) and len(target.elts) == len(it.args):
             out = []
@@ -1005,6 +1015,59 @@ class ProductToComp(ast.NodeTransformer):
         return node
 
 
+def _pairs_source(it: ast.AST) -> Optional[ast.AST]:
+    """X for the iterables zip(X, X[1:]) and zip(X[:-1], X[1:]) (consecutive pairs of X), else None"""
+    if isinstance(it, ast.Call) and dotted(it.func) == "zip" and len(it.args) == 2 and not it.keywords:
+        a, b = it.args
+        if isinstance(b, ast.Subscript) and isinstance(b.slice, ast.Slice) and b.slice.upper is None and b.slice.step is None and \
+                isinstance(b.slice.lower, ast.Constant) and b.slice.lower.value == 1:
+            X = b.value
+            if ast.dump(a) == ast.dump(X):
+                return X
+            if isinstance(a, ast.Subscript) and isinstance(a.slice, ast.Slice) and a.slice.lower is None and a.slice.step is None and \
+                    isinstance(a.slice.upper, ast.UnaryOp) and isinstance(a.slice.upper.op, ast.USub) and isinstance(a.slice.upper.operand, ast.Constant) and \
+                    a.slice.upper.operand.value == 1 and ast.dump(a.value) == ast.dump(X):
+                return X
+    return None
+
+
+class PairsToIndex(ast.NodeTransformer):
+    """comprehension generators `for a, b in zip(X, X[1:])` -> `for j in range(len(X) - 1)` with a = X[j], b = X[j + 1]"""
+
+    def _comp(self, node):
+        node = self.generic_visit(node)
+        for gi, g in enumerate(node.generators):
+            X = _pairs_source(g.iter)
+            if X is None or not (isinstance(g.target, ast.Tuple) and len(g.target.elts) == 2):
+                continue
+            j = _fresh("pair")
+            xa = ast.Subscript(value=copy.deepcopy(X), slice=ast.Name(id=j, ctx=ast.Load()), ctx=ast.Load())
+            xb = ast.Subscript(value=copy.deepcopy(X), slice=ast.BinOp(left=ast.Name(id=j, ctx=ast.Load()), op=ast.Add(), right=ast.Constant(1)), ctx=ast.Load())
+            env: Dict[str, ast.AST] = {}
+            for t_, v_ in zip(g.target.elts, (xa, xb)):
+                if isinstance(t_, ast.Name):
+                    env[t_.id] = v_
+                elif isinstance(t_, (ast.Tuple, ast.List)):
+                    for k_, e_ in enumerate(t_.elts):
+                        if isinstance(e_, ast.Name):
+                            env[e_.id] = ast.Subscript(value=copy.deepcopy(v_), slice=ast.Constant(k_), ctx=ast.Load())
+            g.target = ast.Name(id=j, ctx=ast.Store())
+            g.iter = ast.parse("range(len(X) - 1)", mode="eval").body
+            g.iter.args[0].left.args[0] = copy.deepcopy(X)
+            g.ifs = [subst(c, env) for c in g.ifs]
+            for g2 in node.generators[gi + 1:]:
+                g2.iter = subst(g2.iter, env)
+                g2.ifs = [subst(c, env) for c in g2.ifs]
+            for fld in ("elt", "key", "value"):
+                if hasattr(node, fld):
+                    setattr(node, fld, subst(getattr(node, fld), env))
+        return node
+    visit_GeneratorExp = _comp
+    visit_ListComp = _comp
+    visit_SetComp = _comp
+    visit_DictComp = _comp
+
+
 class _IterListToSet(ast.NodeTransformer):
     def _comp(self, node):
         node = self.generic_visit(node)
@@ -1025,6 +1088,7 @@ def canon_expr(e: ast.AST) -> ast.AST:
     """value-level canonical form shared by the rules: edge-attribute idioms, dict.get idiom, comprehension variables"""
     x = copy.deepcopy(e)
     x = ProductToComp().visit(x)
+    x = PairsToIndex().visit(x)
     x = _IterListToSet().visit(x)
     x = ComprehensionEdges().visit(x)
     x = EdgeAttrCanon({}).visit(x)
@@ -1417,6 +1481,7 @@ def canon_effect(eff: Effect, var_names: Set[str]) -> Dict[str, object]:
     def canon(e: ast.AST) -> ast.AST:
         e = copy.deepcopy(e)
         e = ProductToComp().visit(e)
+        e = PairsToIndex().visit(e)
         e = ComprehensionEdges().visit(e)
         e = EdgeAttrCanon(data_vars).visit(e)
         e = GetCanon().visit(e)
@@ -1475,6 +1540,7 @@ def _chain_of(func_node: ast.AST, st: ast.stmt) -> Optional[List[Tuple[str, ast.
     found: List[Tuple[str, ast.AST, bool]] = []
 
     def find(stmts, acc) -> bool:
+        acc = list(acc)
         for s_ in stmts:
             if s_ is st:
                 found.extend(acc)
@@ -1482,6 +1548,12 @@ def _chain_of(func_node: ast.AST, st: ast.stmt) -> Optional[List[Tuple[str, ast.
             if isinstance(s_, ast.If):
                 if find(s_.body, acc + [("if", s_, True)]) or find(s_.orelse, acc + [("if", s_, False)]):
                     return True
+                # `if c: continue / break / return / raise` before the statement: the statement runs only when c is false
+                if s_.body and isinstance(s_.body[-1], (ast.Continue, ast.Break, ast.Return, ast.Raise)) and not s_.orelse:
+                    acc = acc + [("if", s_, False)]
+                elif s_.orelse and isinstance(s_.orelse[-1], (ast.Continue, ast.Break, ast.Return, ast.Raise)) and \
+                        not (s_.body and isinstance(s_.body[-1], (ast.Continue, ast.Break, ast.Return, ast.Raise))):
+                    acc = acc + [("if", s_, True)]
             elif isinstance(s_, (ast.For, ast.AsyncFor)):
                 if find(s_.body, acc + [("for", s_, True)]):
                     return True
